@@ -100,7 +100,9 @@ def multiclient_options(gen: ModelGen, info: Dict[str, Any]) -> List[dict]:
                 continue
             for fld in mc['fields']:
                 out.append({'port': pname, 'claim': mc['claim'], 'reply': [fld],
-                            'release': mc['release'], 'enum_fqn': mc['enum_fqn']})
+                            'release': mc['release'], 'enum_fqn': mc['enum_fqn'],
+                            'fields': list(mc['fields']),
+                            'preferred': mc.get('prefer_reply') == fld})
     return out
 
 
@@ -112,6 +114,17 @@ def rand_cfg(rng: random.Random, gen: ModelGen, ent, multiclient: Optional[bool]
     options = multiclient_options(gen, info)
     if options and (multiclient or (multiclient is None and rng.random() < 0.5)):
         mc = dict(rng.choice(options))
+        # prefer a granting value that another enumerator of the same enum merely ends with
+        # or starts with (Ok next to NotOk), when the enum has such a pair
+        related = [o for o in options if o['port'] == mc['port'] and o['claim'] == mc['claim']
+                   and any(f != o['reply'][0] and (f.endswith(o['reply'][0]) or
+                                                   f.startswith(o['reply'][0]))
+                           for f in o.get('fields', []))]
+        if related and rng.random() < 0.7:
+            mc = dict(rng.choice(related))
+        forced = [o for o in options if o.get('preferred')]
+        if forced:
+            mc = dict(rng.choice(forced))
     if mc is not None:
         provides = rand_side(rng, info['provides'], uniform='MTS')
         requires = rand_side(rng, info['requires'])
@@ -153,7 +166,7 @@ def expected_semantics(enc: dict, info: Dict[str, Any]):
 def shell_opts(rng: random.Random, want_multiclient: bool = False, small: bool = False,
                mc_decoys: str = 'random', mc_shape: Optional[int] = None,
                name_families: Optional[float] = None,
-               ref_externs: Optional[float] = None) -> GenOpts:
+               ref_externs: Optional[float] = None, mc_enum_family: bool = False) -> GenOpts:
     """Generator options for models that are meant to be wrapped in a shell."""
     return GenOpts(
         max_ns_depth=rng.choice([0, 1, 2, 3]), max_ns_children=rng.choice([1, 2]),
@@ -166,19 +179,20 @@ def shell_opts(rng: random.Random, want_multiclient: bool = False, small: bool =
         n_injected=(0, 1), n_foreigns=(0, 1), n_subints=(0, 1), noise=0.0,
         want_multiclient=want_multiclient, global_component=0.2, mc_decoys=mc_decoys,
         mc_shape=mc_shape, name_families=0.15 if name_families is None else name_families,
-        ref_externs=0.25 if ref_externs is None else ref_externs)
+        ref_externs=0.25 if ref_externs is None else ref_externs, mc_enum_family=mc_enum_family)
 
 
 def gen_shell_case(rng: random.Random, want_multiclient: Optional[bool] = None,
                    small: bool = False, hostile_text: bool = False, mc_decoys: str = 'random',
                    mc_position: Optional[str] = None, mc_shape: Optional[int] = None,
                    name_families: Optional[float] = None, accept=None,
-                   ref_externs: Optional[float] = None, twins: bool = False):
+                   ref_externs: Optional[float] = None, twins: bool = False,
+                   mc_enum_family: bool = False):
     """(gen, entry, cfg encoding, info): one model, one encapsulee, one valid configuration."""
     wmc = rng.random() < 0.4 if want_multiclient is None else want_multiclient
     for _attempt in range(400):
         gen = ModelGen(rng, shell_opts(rng, wmc, small, mc_decoys, mc_shape, name_families,
-                                       ref_externs))
+                                       ref_externs, mc_enum_family))
         gen.build_skeleton()
         o = gen.o
         for _ in range(gen._rint(o.n_externs)):
